@@ -254,3 +254,61 @@ def count_events(cfg: CFG, count: Callable, cap: int = 3):
         new = frozenset(min(cap, x + c) for x in st)
         return {None: new, 'exc': st}
     return forward(cfg, frozenset([0]), transfer, lambda a, b: a | b)
+
+
+# ------------------------------------------------------------- typestate
+
+def typestate(cfg: CFG, init, step: Callable, start: Optional[Node] = None):
+    """Forward may-analysis over sets of small hashable states.
+    step(node, label, state) -> state | None (edge infeasible for state).
+    Returns IN: node id -> frozenset of states possible on arrival."""
+    def transfer(n, states):
+        out = {}
+        for label, s in n.succ:
+            nxt = set()
+            for x in states:
+                y = step(n, label, x)
+                if y is not None:
+                    nxt.add(y)
+            out[label] = frozenset(nxt) if nxt else None
+        return out
+    return forward(cfg, frozenset([init]), transfer, lambda a, b: a | b,
+                   start=start)
+
+
+def typestate_witness(cfg: CFG, init, step: Callable, goal: Callable,
+                      start: Optional[Node] = None, edge_flag=None):
+    """Shortest path over the product (node, state) to a pair accepted by
+    goal(node, state).  edge_flag(node,label) -> bool marks edges; when given,
+    only paths containing at least one flagged edge are accepted."""
+    start = start or cfg.entry
+    nodes = {n.id: n for n in cfg.nodes}
+    s0 = (start.id, init, False)
+    prev = {s0: None}
+    work = deque([s0])
+    found = None
+    while work:
+        cur = work.popleft()
+        nid, st, fl = cur
+        n = nodes[nid]
+        if goal(n, st) and (fl or edge_flag is None):
+            found = cur
+            break
+        for label, s in n.succ:
+            st2 = step(n, label, st)
+            if st2 is None:
+                continue
+            fl2 = fl or (edge_flag is not None and bool(edge_flag(n, label)))
+            nxt = (s.id, st2, fl2)
+            if nxt not in prev:
+                prev[nxt] = (cur, label)
+                work.append(nxt)
+    if found is None:
+        return None
+    path = [(nodes[found[0]], None)]
+    cur = found
+    while prev[cur] is not None:
+        pc, label = prev[cur]
+        path.append((nodes[pc[0]], label))
+        cur = pc
+    return path[::-1]
